@@ -679,6 +679,34 @@ func c02R4(c *Check, R *Roles) {
 		}
 	}
 	c.Obl(idAlways, "C02.R4", "encoder/id-token-always", P.Pos(enc.Pos()), "the ID token entry is written on every path", "the ID token header can be omitted on some path of the encoder")
+	// the access token entry is omitted only when forwarding is not configured or there is no access token: with
+	// GetAccessToken() != nil and AccessToken != "" assumed, no return of the encoder is reachable without the entry
+	// (a bound token that is silently not forwarded leaves the client's own header in place: forwarded ≠ bound)
+	{
+		atoms := atomEnv{}
+		for _, b := range enc.Blocks {
+			for _, ins := range b.Instrs {
+				bo, ok := ins.(*ssa.BinOp)
+				if !ok || (bo.Op != token.EQL && bo.Op != token.NEQ) {
+					continue
+				}
+				if gc, _, isC := asCall(bo.X); isC && isCallTo(gc, idOIDCConfig+".GetAccessToken") && isNilConst(bo.Y) {
+					atoms[bo] = bo.Op == token.NEQ
+				}
+				if s, isK := constString(bo.Y); isK && s == "" && fieldNameOfLoad(bo.X) == "AccessToken" {
+					atoms[bo] = bo.Op == token.NEQ
+				}
+			}
+		}
+		isAcc := func(i ssa.Instruction) bool {
+			mu, ok := i.(*ssa.MapUpdate)
+			return ok && isGetterOn(mu.Key, pkgCfgOIDC+".TokenConfig.GetHeader", func(rv ssa.Value) bool { return cfgTok(rv, "AccessToken") })
+		}
+		hit := existsPath(enc, atoms, func(i ssa.Instruction) bool { _, isR := i.(*ssa.Return); return isR }, isAcc)
+		c.Obl(len(atoms) >= 2 && hit == nil, "C02.R4", "encoder/access-token-whenever-configured-and-present", P.Pos(enc.Pos()),
+			"forwarding configured ∧ access token present ⇒ the entry is written on every path",
+			"the encoder can return without the access-token entry although forwarding is configured and the session holds an access token ("+posOf(P, hit)+"): the bound token is not what the upstream receives")
+	}
 	// preamble helper shape: returns preamble + " " + value or value
 	for _, ci := range allCalls(enc) {
 		callee := ci.Common().StaticCallee()
@@ -832,4 +860,89 @@ func uniqueAllocOf(v ssa.Value) *ssa.Alloc {
 		al = a
 	}
 	return al
+}
+
+// optionalNonceRule: on the path where the nonce is not required (refresh: the login state, and the nonce
+// with it, was cleared when the login completed) a nonce carried by the token is compared only when there
+// is an expected nonce to compare it with — a provider that repeats the original nonce in refreshed ID tokens
+// must not be refused. Decided as path feasibility in the validator: with required = false, expected == ""
+// and the (in)equality of the two nonces set to `differ`, a `valid` return must still be reachable.
+// Filed under C11.R3 and C03.R7.
+func optionalNonceRule(c *Check, rule string, R *Roles) {
+	P := c.P
+	fn := R.Validator
+	if fn == nil {
+		return
+	}
+	var nonceParam, reqParam *ssa.Parameter
+	strs := 0
+	for _, p := range fn.Params {
+		switch {
+		case isString(p.Type()):
+			strs++
+			if strs == 2 {
+				nonceParam = p
+			}
+		case isBool(p.Type()):
+			reqParam = p
+		}
+	}
+	var present, claim ssa.Value
+	for _, ci := range allCalls(fn) {
+		cc, ok := ci.(*ssa.Call)
+		if !ok || !cc.Common().IsInvoke() || cc.Common().Method.Name() != "Get" {
+			continue
+		}
+		if s, isS := constString(cc.Common().Args[0]); isS && s == "nonce" {
+			present = extractOf(cc, 1)
+			claim = extractOf(cc, 0)
+		}
+	}
+	if !c.Anchor(rule, "validator parameters and nonce claim lookup", nonceParam != nil && reqParam != nil && present != nil && claim != nil) {
+		return
+	}
+	atoms := atomEnv{present: true, reqParam: false}
+	nCmp := 0
+	for _, b := range fn.Blocks {
+		for _, ins := range b.Instrs {
+			bo, ok := ins.(*ssa.BinOp)
+			if !ok || (bo.Op != token.NEQ && bo.Op != token.EQL) || !isString(bo.X.Type()) {
+				continue
+			}
+			fromClaim := func(v ssa.Value) bool { return dataDeps(v)[claim] }
+			switch {
+			case (fromClaim(bo.X) && bo.Y == ssa.Value(nonceParam)) || (fromClaim(bo.Y) && bo.X == ssa.Value(nonceParam)):
+				atoms[bo] = bo.Op == token.NEQ // the nonces differ
+				nCmp++
+			case bo.X == ssa.Value(nonceParam) || bo.Y == ssa.Value(nonceParam):
+				other := bo.Y
+				if bo.Y == ssa.Value(nonceParam) {
+					other = bo.X
+				}
+				if s, isC := constString(other); isC && s == "" {
+					atoms[bo] = bo.Op == token.EQL // the expected nonce is empty
+				}
+			case fromClaim(bo.X) || fromClaim(bo.Y):
+				other := bo.Y
+				if fromClaim(bo.Y) {
+					other = bo.X
+				}
+				if s, isC := constString(other); isC && s == "" {
+					atoms[bo] = bo.Op == token.NEQ // the token's nonce is non-empty
+				}
+			}
+		}
+	}
+	isValidReturn := func(ins ssa.Instruction) bool {
+		r, ok := ins.(*ssa.Return)
+		if !ok {
+			return false
+		}
+		b, isC := constBool(r.Results[0])
+		return !isC || b
+	}
+	hit := existsPath(fn, atoms, isValidReturn, nil)
+	c.Obl(nCmp >= 1 && hit != nil, rule, "optional-nonce-needs-an-expectation", P.Pos(fn.Pos()),
+		"not required ∧ no expected nonce ∧ token carries a nonce ⇒ `valid` is still reachable (the nonce is compared only against an existing expectation)",
+		"with the nonce not required and no expected nonce, a token that carries a nonce can no longer be valid: refreshed ID tokens that repeat the login's nonce are refused after the login state was cleared")
 }
